@@ -608,3 +608,77 @@ def retry_termination_rule(chk, cid, prog, p, cfgname):
     if n < 1:
         raise AnalysisBroken('%s: retry loop not found' % f.name)
     return n
+
+
+def _lin(e):
+    """linear form {var-id-or-text: coeff, 1: const} of an integer expression built from + - and literals; None if not linear"""
+    e = strip(e)
+    v = const_value(e)
+    if v is not None:
+        return {1: v}
+    if e.k == 'Ref':
+        return {('v', e.a.get('id')): 1}
+    if e.k == 'Binary' and e.a['op'] in ('+', '-'):
+        a, b = _lin(e.c[0]), _lin(e.c[1])
+        if a is None or b is None:
+            return None
+        out = dict(a)
+        for k, c in b.items():
+            out[k] = out.get(k, 0) + (c if e.a['op'] == '+' else -c)
+        return {k: c for k, c in out.items() if c != 0}
+    return None
+
+
+def relaxed_capacity_rule(chk, cid, prog, p, cfgname):
+    """A relaxed supernode jcol..kcol is stored column after column in lusup[] by a loop `for (icol = jcol; icol <= kcol; icol++)` that never
+    tests the capacity itself; the one test in front of it must therefore ask for rows x (number of columns the loop stores).  The demand is
+    recognised as `new_next = nextlu + R * W`; W, as a linear form, must equal the trip count of that loop (kcol - jcol + 1)."""
+    n = 0
+    for fname in (p + 'gstrf', p + 'gsitrf'):
+        f = prog.func(fname)
+        if f is None:
+            raise AnalysisBroken('%s not found' % fname)
+        chk.saw(unit=f.unit, func=f.unit + ':' + f.name)
+        for blk in f.body.walk():
+            if blk.k != 'Block':
+                continue
+            for i, st in enumerate(blk.c):
+                s0 = strip(st)
+                if not (s0.k == 'Assign' and s0.a['op'] == '=' and strip(s0.c[0]).k == 'Ref' and strip(s0.c[0]).a.get('name') == 'new_next'):
+                    continue
+                r = strip(s0.c[1])
+                if not (r.k == 'Binary' and r.a['op'] == '+'):
+                    continue
+                prod = [x for x in (strip(r.c[0]), strip(r.c[1])) if x.k == 'Binary' and x.a['op'] == '*']
+                if not prod:
+                    continue
+                # the storing loop: the next For in this block whose induction variable runs between two plain variables
+                loop = next((x for x in blk.c[i + 1:] if x.k == 'For' and x.c[0] is not None and x.c[1] is not None), None)
+                if loop is None:
+                    continue
+                init, cond = strip(loop.c[0]), strip(loop.c[1])
+                if init.k != 'Assign' or cond.k != 'Binary' or cond.a['op'] not in ('<=', '<'):
+                    continue
+                lo, hi = _lin(init.c[1]), _lin(cond.c[1])
+                if lo is None or hi is None:
+                    continue
+                trip = dict(hi)
+                for k, c in lo.items():
+                    trip[k] = trip.get(k, 0) - c
+                if cond.a['op'] == '<=':
+                    trip[1] = trip.get(1, 0) + 1
+                trip = {k: c for k, c in trip.items() if c != 0}
+                n += 1
+                inst = '%s:relaxed-supernode-demand-covers-every-column' % fname
+                facs = [_lin(x) for x in prod[0].c]
+                if trip in facs:
+                    chk.ok(cid, inst, sample='`%s`; storing loop `for (%s; %s; ..)`' % (pretty(s0)[:70], pretty(init), pretty(cond)))
+                else:
+                    chk.violate(cid, inst, loc(f, s0), fname,
+                                '`%s` asks for space for %s columns, but the loop `for (%s; %s; ..)` that follows stores %s columns of the relaxed '
+                                'supernode without another capacity test: the last column is written past lusup[] when the array is exactly full'
+                                % (pretty(s0)[:80], ' or '.join(pretty(x)[:20] for x in prod[0].c), pretty(init), pretty(cond),
+                                   pretty(cond.c[1]) + ' - ' + pretty(init.c[1]) + (' + 1' if cond.a['op'] == '<=' else '')), cfgname=cfgname)
+    if n < 2:
+        raise AnalysisBroken('relaxed_capacity_rule(%s): %d relaxed-supernode demands found, expected 2' % (p, n))
+    return n
